@@ -42,8 +42,9 @@ META = {
 }
 
 KINDS = ['section', 'subsection', 'equation', 'item', 'item2', 'figure', 'figure0', 'table', 'theorem', 'lemma', 'prop',
-         'subsubsection', 'paragraph', 'figurec', 'tablec', 'captionin', 'align1', 'align2', 'eqnarray1', 'eqnarray2']
-HEADINGS = ('section', 'subsection', 'subsubsection', 'paragraph')
+         'subsubsection', 'paragraph', 'figurec', 'tablec', 'captionin', 'align1', 'align2', 'eqnarray1', 'eqnarray2',
+         'sectionstar', 'subsectionstar']
+HEADINGS = ('section', 'subsection', 'subsubsection', 'paragraph', 'sectionstar', 'subsectionstar')
 
 
 def generate(seed, tier):
@@ -218,7 +219,7 @@ def compile_doc(events):
         lab = ('\\label{%s}' % ((' %s ' % key) if o.get('lsp') else key)) if o['label'] else ''
         if k in HEADINGS:
             # (subsubsection and paragraph lie beyond the default sec-num-depth: unnumbered, but labelled all the same)
-            lines.append('\\%s{T%s%s}%s' % (k, m, ttl, lab))
+            lines.append('\\%s{T%s%s}%s' % (k.replace('star', '*'), m, ttl, lab))
             lines.append('%s body%s %s' % (pre, m, post))
         elif k == 'equation':
             # references cannot stand inside display math: they go around it
@@ -280,7 +281,7 @@ EXPECT_NODE = {'section': ('section',), 'subsection': ('subsection',), 'equation
                'figure': ('caption',), 'table': ('caption',), 'theorem': ('thm', 'thmenv'), 'item2': ('item',),
                'lemma': ('lem', 'thmenv'), 'figure0': ('caption',), 'prop': ('prop', 'thmenv'),
                'subsubsection': ('subsubsection',), 'paragraph': ('paragraph',), 'figurec': ('caption',), 'tablec': ('caption',),
-               'captionin': ('caption',), 'align1': ('align',), 'align2': ('ArrayRow',), 'eqnarray1': ('eqnarray',), 'eqnarray2': ('ArrayRow',)}
+               'sectionstar': ('section',), 'subsectionstar': ('subsection',), 'captionin': ('caption',), 'align1': ('align',), 'align2': ('ArrayRow',), 'eqnarray1': ('eqnarray',), 'eqnarray2': ('ArrayRow',)}
 
 
 def run_doc(events, objs):
@@ -426,7 +427,7 @@ def _probes(ev, objs, refs, info):
                     info['label_on_display_row'] = 1
                 if o['kind'] == 'captionin':
                     info['label_inside_caption'] = 1
-                if o['kind'] in ('subsubsection', 'paragraph'):
+                if o['kind'] in ('subsubsection', 'paragraph', 'sectionstar', 'subsectionstar'):
                     info['label_on_unnumbered_heading'] = 1
                 if o['kind'] == 'figure0':
                     info['label_on_empty_caption'] = 1
@@ -482,8 +483,10 @@ def expected_numbers(objs):
         if k in ('item', 'item2'):
             out[o['m']] = '1' if k == 'item' else '2'
             continue
-        if k in ('subsubsection', 'paragraph'):
-            out[o['m']] = NO_NUMBER_CHECK      # beyond sec-num-depth: no number is printed
+        if k in ('subsubsection', 'paragraph', 'sectionstar', 'subsectionstar'):
+            # beyond sec-num-depth / starred: no number is printed - and none is CONSUMED: the numbers of the objects
+            # that follow are the same as without it
+            out[o['m']] = NO_NUMBER_CHECK
             continue
         if k in ('align1', 'align2', 'eqnarray1', 'eqnarray2'):
             n['equation'] += 2
